@@ -50,3 +50,56 @@ CONTRACTS.append(Contract(
            'search': {'generator': ('bounded.loader_harness', 'gen_build_cases')}},
     serves=["C15"],
     notes="trace contract; crash-safety follows for every prefix of the trace under the POSIX axioms"))
+
+# ---------------------------------------------------------------------------------------
+# TemplateLoader.load (C16): first match along the search path
+# ---------------------------------------------------------------------------------------
+TL = "loader.py::TemplateLoader"
+REC_FIELDS[TL] = {"default_extension": "opt[str]", "search_path": "seq[str]", "kwargs": "any"}
+LEXT = {
+    'os.path.isabs': {'result': 'bool', 'function': True, 'as': 'isabs'},
+    'os.path.exists': {'result': 'bool', 'function': True, 'as': 'exists'},
+    'os.path.join': {'result': 'str', 'function': True, 'as': 'pjoin'},
+    'cls': {'result': 'any', 'as': 'cls'},
+}
+NAME = "(spec.strip() if (self.default_extension is None or '.' in spec.strip()) " \
+       "else spec.strip() + self.default_extension)"
+CONTRACTS.append(Contract(
+    TL + ".load", params={"self": "rec[%s]" % TL, "spec": "str", "cls": "any"},
+    requires=["cls is not None",
+              # package-relative search paths and 'pkg:path' specs are outside this contract
+              "':' not in spec", "':' not in spec.strip()",   # (the second follows from the first)
+              "self.default_extension is None or ':' not in self.default_extension",
+              ],
+    ensures=[
+        # the template class is instantiated exactly once ...
+        "ext_index('cls', 1) == -1",
+        "ext_index('cls') != -1",
+        # ... with the name itself if absolute, otherwise with the FIRST search-path entry under
+        # which the (extension-completed) name exists
+        "not env('isabs', 'bool', %s) or ext_call_arg('cls', 0, 0) == %s" % (NAME, NAME),
+        # the name looked up along the search path is the stripped, extension-completed spec
+        "env('isabs', 'bool', %s) or at_loop(1, 'spec') == %s" % (NAME, NAME),
+        "env('isabs', 'bool', %s) or (0 <= loop_index(1) and loop_index(1) < len(self.search_path) and "
+        "ext_call_arg('cls', 0, 0) == env('pjoin', 'str', self.search_path[loop_index(1)], at_loop(1, 'spec')) and "
+        "env('exists', 'bool', env('pjoin', 'str', self.search_path[loop_index(1)], at_loop(1, 'spec'))))" % NAME,
+        "env('isabs', 'bool', %s) or all(not env('exists', 'bool', env('pjoin', 'str', "
+        "self.search_path[j], at_loop(1, 'spec'))) for j in range(0, loop_index(1)))" % NAME,
+    ],
+    raises={'ValueError': {
+        'when': "not env('isabs', 'bool', %s)" % NAME,
+        'ensures': ["at_loop(1, 'spec') == %s" % NAME,
+                    "all(not env('exists', 'bool', env('pjoin', 'str', self.search_path[j], at_loop(1, 'spec'))) "
+                    "for j in range(0, len(self.search_path)))"]}},
+    loops={1: {
+        'inv': ["all(not env('exists', 'bool', env('pjoin', 'str', self.search_path[j], spec)) "
+                "for j in range(0, _i))",
+                "spec == entry_spec", "package_name is None"],
+        # PRECONDITION (stated per index to keep the queries quantifier-light): no search-path
+        # entry is package-relative ('pkg:path')
+        'lemmas': ["_i >= len(self.search_path) or ':' not in self.search_path[_i]"],
+    }},
+    ghost={'externals': LEXT},
+    serves=["C16"],
+    notes="os.path.exists/isabs/join are uninterpreted observations of an unchanging file system; "
+          "package-relative paths are excluded by the precondition"))
